@@ -13,10 +13,14 @@ def replay_for(rep, prop):
         wname = e.get("witness")
         if not wname:
             continue
-        modname, fn = wname.rsplit(".", 1)
         try:
-            mod = importlib.import_module("vf.witness." + modname)
-            kinds, detail = getattr(mod, fn)()
+            if wname.startswith("recorded:"):
+                from .. import recorded
+                kinds, detail = recorded.replay_file(os.path.join(R.VERIF, wname[len("recorded:"):]))
+            else:
+                modname, fn = wname.rsplit(".", 1)
+                mod = importlib.import_module("vf.witness." + modname)
+                kinds, detail = getattr(mod, fn)()
         except Exception as ex:  # witness could not run: inconclusive, not a violation
             rep.inconclusive.append(dict(case="witness " + wname, why=repr(ex)[:300]))
             continue
